@@ -24,6 +24,7 @@ def run(tier, seed, t0):
             ("browse", [], "TraceBrowse", "TraceBrowse.cfg", 40, 800),
             ("resolve", [], "TraceBrowse", "TraceBrowse.cfg", 40, 800),
             ("browsew", [], "TraceBrowse", "TraceBrowse.cfg", 40, 800),
+            ("resolvew", [], "TraceBrowse", "TraceBrowse.cfg", 40, 800),
             ("conflict", [], "TraceRespond", "TraceRespond.cfg", 60, 800)]
     return daemon.run_group(PROP, tier, seed, t0, fams, "TraceBrowse", "TraceBrowse.cfg", PREFIXES,
                             [("MCSchedule", "MCSchedule.cfg")], ["C19.schedule", "C07.twice", "C09.repeat", "C11.refresh"], ASSUME, RULE)
